@@ -12,6 +12,10 @@
 //   case <n> run <t0>            single-thread start(awaitable) under virtual time, scripted sleeper coroutines (co ... / go)
 //   case <n> thr [v] | pool <k> [v]  worker in a real std::thread / on a real thread_pool, virtual clock driven by `adv <t>`;
 //                                v selects the entry point: scheduler(thread&) / start(thread&) / start_thread(), scheduler(pool&) / start(pool&)
+//                                `cbs <tp> <id> s <tp2> <id2>` / `cbs <tp> <id> c <id2>`: a sleep whose awaiter is a callback
+//                                (make_promise) that calls the scheduler again - sleep_until(tp2, id2) / cancel(id2) - in
+//                                the thread that resolves it (the worker, or the caller of cancel/remove); reported as
+//                                `cbs#k=s` / `cbc#k=<result>`, the sleep it created as `cs#k=<outcome>`
 //   case <n> thrstep | poolstep <k>  same, but every acquisition of the scheduler mutex by the worker is a stall point:
 //                                `w` lets the worker run one lock region, public calls run in between, `free` ends the
 //                                stepping; every line reports the worker's state (w=lock | parked:<deadline> | gone)
@@ -45,6 +49,8 @@
 namespace vt {
 inline std::atomic<long long> now_ticks{0};      // virtual clock (ms)
 inline std::atomic<unsigned long> notifies{0};   // notify_all / notify_one calls on the watched condition variable
+inline thread_local unsigned long my_notifies = 0;   // ... those made by the calling thread (a completion callback that
+                                                 // re-enters the scheduler on the worker's thread may notify concurrently)
 inline const void *watch_cv = nullptr;           // the scheduler's `_cond` (nullptr: count every interposed cv)
 inline bool single_thread = true;      // wait_until advances the clock instead of blocking
 inline std::vector<std::string> *trace = nullptr;   // wait_until events (run mode)
@@ -202,14 +208,14 @@ class verif_condition_variable {
 
 public:
     void notify_all() noexcept {
-        if (!vt::watch_cv || vt::watch_cv == this) ++vt::notifies;
+        if (!vt::watch_cv || vt::watch_cv == this) ++vt::notifies, ++vt::my_notifies;
         if (!vt::single_thread) {
             std::lock_guard g(vt::G);
             vt::wake_lk([&](const vt::waiter &w) { return w.cv == this; }, false);
         }
     }
     void notify_one() noexcept {
-        if (!vt::watch_cv || vt::watch_cv == this) ++vt::notifies;
+        if (!vt::watch_cv || vt::watch_cv == this) ++vt::notifies, ++vt::my_notifies;
         if (!vt::single_thread) {
             std::lock_guard g(vt::G);
             vt::wake_lk([&](const vt::waiter &w) { return w.cv == this; }, true);
@@ -612,15 +618,23 @@ static void run_mt(std::istream &in, const std::string &kind, int nthr, bool ste
     };
     vh::fut_set<void> sl("sleep");
     std::vector<std::string> evs;
-    // completion callbacks (make_promise) that call the scheduler again: what they did, reported after the completions
+    // completion callbacks (make_promise) that call the scheduler again: what they did, reported after the completions.
+    // They may run on the worker's thread while the main thread is still inside its own call, so they never touch `sl`:
+    // the sleep created by the callback of sleep #k is kept in `cbfut[k]` and reported as `cs#k=<outcome>`.
     std::mutex cbmx;
     std::vector<std::pair<std::size_t, std::string>> cbev;
-    bool sch_alive = true;
+    std::map<std::size_t, std::pair<std::unique_ptr<future<void>>, bool>> cbfut;
+    std::atomic<bool> sch_alive{true};
     auto poll = [&] {
         std::size_t n0 = evs.size();
         sl.poll(evs);
         {
             std::lock_guard g(cbmx);
+            for (auto &e : cbfut)
+                if (!e.second.second && e.second.first->ready()) {
+                    e.second.second = true;
+                    evs.push_back("cs#" + std::to_string(e.first) + "=" + vh::outcome(*e.second.first));
+                }
             std::sort(cbev.begin(), cbev.end());
             for (auto &e : cbev) evs.push_back(e.second);
             cbev.clear();
@@ -686,12 +700,12 @@ static void run_mt(std::istream &in, const std::string &kind, int nthr, bool ste
             return;
         } else if (w[0] == "sleep" || w[0] == "sched") {
             long long tp = num(1), id = num(2);
-            unsigned long n0 = vt::notifies;
+            unsigned long n0 = vt::my_notifies;
             std::size_t k;
             if (w[0] == "sleep") k = sl.add([&] { return sch->sleep_until(TP(tp), ID(id)); });
             else k = sl.add([&](scheduler::promise p) { sch->schedule(ID(id), std::move(p), TP(tp)); });
             // the worker may already be resolving it: its completion is reported by the poll after quiescence
-            head << "sleep#" << k << " ntf=" << (vt::notifies - n0);
+            head << "sleep#" << k << " ntf=" << (vt::my_notifies - n0);
         } else if (w[0] == "cbs") {
             // cbs <tp> <id> s <tp2> <id2> | cbs <tp> <id> c <id2>: schedule(id, make_promise<void>(callback), tp) - "you can
             // actually schedule anything" - with a callback that calls the scheduler again when the sleep completes:
@@ -699,7 +713,7 @@ static void run_mt(std::istream &in, const std::string &kind, int nthr, bool ste
             // synchronously in whatever thread resolves the promise (the worker, or the caller of cancel/remove).
             long long tp = num(1), id = num(2), a = num(4), b = num(5);
             char act = w.size() > 3 ? w[3][0] : 's';
-            unsigned long n0 = vt::notifies;
+            unsigned long n0 = vt::my_notifies;
             std::size_t k = sl.v.size();
             sch_t *sp = sch.get();
             sl.add([&](scheduler::promise bridge) {
@@ -713,9 +727,10 @@ static void run_mt(std::istream &in, const std::string &kind, int nthr, bool ste
                     }
                     if (!sch_alive) return;
                     if (act == 's') {
-                        std::size_t k2 = sl.add([&] { return sp->sleep_until(TP(a), ID(b)); });
+                        std::unique_ptr<future<void>> f2(new future<void>([&] { return sp->sleep_until(TP(a), ID(b)); }));
                         std::lock_guard g(cbmx);
-                        cbev.push_back({k, "cbs#" + std::to_string(k) + "=s" + std::to_string(k2)});
+                        cbfut[k] = {std::move(f2), false};
+                        cbev.push_back({k, "cbs#" + std::to_string(k) + "=s"});
                     } else {
                         bool r = sp->cancel(ID(a));
                         std::lock_guard g(cbmx);
@@ -723,7 +738,7 @@ static void run_mt(std::istream &in, const std::string &kind, int nthr, bool ste
                     }
                 }), TP(tp));
             });
-            head << "sleep#" << k << " ntf=" << (vt::notifies - n0);
+            head << "sleep#" << k << " ntf=" << (vt::my_notifies - n0);
         } else if (w[0] == "w") {
             // step mode: the worker performs its next lock region
             std::lock_guard g(vt::G);
